@@ -1,20 +1,16 @@
-// C07 harness: runs kvstore.Sequence over a mapdb wrapped by a store that injects faults / crash points,
-// on random event histories; records the output of every event and the stored mark after every event.
+// C07 harness: runs kvstore.Sequence over a store configuration (bare mapdb, nested realm views, flushkv over a
+// write-buffering backend: env.go) wrapped by a store that injects faults / crash points, on random event histories;
+// records the output of every event and the DURABLE mark after every event.
 package main
 
 import (
-	"encoding/binary"
 	"errors"
 	"flag"
 	"fmt"
 	"os"
 	"strings"
-	"sync"
-	"sync/atomic"
-	"time"
 
 	"github.com/iotaledger/hive.go/kvstore"
-	"github.com/iotaledger/hive.go/kvstore/mapdb"
 
 	"verif/harness/vx"
 )
@@ -57,9 +53,28 @@ func (f *faultStore) Set(k kvstore.Key, v kvstore.Value) error {
 func (f *faultStore) disarm() { f.failGet, f.failSet, f.setThenFail = false, false, false }
 
 type ev struct {
-	Kind string `json:"k"` // new next nextcrash release abandon
+	Kind string `json:"k"` // new next nextcrash release abandon | environment (not seen by the model): sib dnew dop
 	I    uint64 `json:"i,omitempty"`
-	F    string `json:"f,omitempty"` // NoFault FailGet FailSet | AfterRead AfterWrite | fails
+	F    string `json:"f,omitempty"` // NoFault FailGet FailSet | AfterRead AfterWrite | fails | sib: realm name | dop: next release restart
+	// Via = "flush": the fault is a Flush of the backend that fails after the Set was accepted into the write buffer
+	// (FailSet / AfterRead / fails: nothing became durable) instead of a Set that fails before touching the store.
+	Via string `json:"via,omitempty"`
+	Key string `json:"key,omitempty"` // sib, dnew: key of the other sequence
+	Abs bool   `json:"abs,omitempty"` // sib: opened by top.WithRealm(whole prefix)
+}
+
+// envEvent: the event acts on the environment of the sequence under test (sibling views, other sequences); the model
+// does not see it because it must not influence the sequence.
+func (e ev) envEvent() bool { return e.Kind == "sib" || e.Kind == "dnew" || e.Kind == "dop" }
+
+func modelEvents(h []ev) []ev {
+	var m []ev
+	for _, e := range h {
+		if !e.envEvent() {
+			m = append(m, e)
+		}
+	}
+	return m
 }
 
 func (e ev) coq() string {
@@ -86,29 +101,46 @@ type obs struct {
 	wrap bool   // mark + interval of the live object would pass 2^64: outside the no_wrap guard
 }
 
-func readMark(inner kvstore.KVStore) string {
-	v, err := inner.Get(key)
-	if err != nil {
+func markTerm(e *env) string {
+	m, ok := e.mark(e.prefix, key)
+	if !ok {
 		return "None"
 	}
-	return "(Some " + vx.N(binary.BigEndian.Uint64(v)) + ")"
+	return "(Some " + vx.N(m) + ")"
 }
 
-// runHistory executes h on the real code.
-func runHistory(h []ev) []obs {
-	inner := mapdb.NewMapDB()
-	fs := &faultStore{KVStore: inner}
+// runHistory executes h on the real code over store configuration c. One obs per model event.
+func runHistory(c cfg, h []ev) ([]obs, *env) {
+	en := newEnv(c)
+	fs := &faultStore{KVStore: en.view}
 	var seq *kvstore.Sequence
 	var res []obs
 	var curInterval uint64
 	for _, e := range h {
-		o := obs{out: "ONone"}
 		fs.disarm()
-		if (e.Kind == "next" || e.Kind == "nextcrash") && seq != nil {
-			var m uint64
-			if v, err := inner.Get(key); err == nil {
-				m = binary.BigEndian.Uint64(v)
+		en.disarm()
+		switch e.Kind {
+		case "sib":
+			s, p := en.sibling(e.F, e.Abs)
+			if d := en.addDecoy(s, p, e.Key, 1+e.I%3); d != nil {
+				d.next()
 			}
+			continue
+		case "dnew":
+			if d := en.addDecoy(en.view, en.prefix, e.Key, 1+e.I%3); d != nil {
+				d.next()
+			}
+			continue
+		case "dop":
+			if len(en.decoys) > 0 {
+				en.decoys[int(e.I%uint64(len(en.decoys)))].op(e.F)
+			}
+			continue
+		}
+		o := obs{out: "ONone"}
+		viaFlush := e.Via == "flush" && en.core != nil
+		if (e.Kind == "next" || e.Kind == "nextcrash") && seq != nil {
+			m, _ := en.mark(en.prefix, key)
 			if m+curInterval < m || m+1 < m {
 				o.wrap = true
 			}
@@ -126,17 +158,21 @@ func runHistory(h []ev) []obs {
 					o.out = "OErr"
 					return
 				}
+				en.crash() // the previous object (if any) is gone with its process
 				seq = s
 				curInterval = e.I
 			}()
 		case "abandon":
 			seq = nil
+			en.crash()
 		case "next":
 			if seq != nil {
-				switch e.F {
-				case "FailGet":
+				switch {
+				case e.F == "FailGet":
 					fs.failGet = true
-				case "FailSet":
+				case e.F == "FailSet" && viaFlush:
+					en.armFlush()
+				case e.F == "FailSet":
 					fs.failSet = true
 				}
 				v, err := seq.Next()
@@ -148,10 +184,14 @@ func runHistory(h []ev) []obs {
 			}
 		case "nextcrash":
 			if seq != nil {
-				// the process stops inside Next: after the store read (= the write never happens) or right after the write
-				if e.F == "AfterRead" {
+				// the process stops inside Next: after the store read (= nothing becomes durable: the Set never happens,
+				// or it is only buffered and the Flush does not complete) or right after the (durable) write
+				switch {
+				case e.F == "AfterRead" && viaFlush:
+					en.armFlush()
+				case e.F == "AfterRead":
 					fs.failSet = true
-				} else {
+				default:
 					fs.setThenFail = true
 				}
 				sets := fs.sets
@@ -163,34 +203,85 @@ func runHistory(h []ev) []obs {
 				}
 				// whatever Next returned is lost with the process (a number handed out here would be a
 				// completed Next followed by a crash, which the generator expresses as next+abandon)
-				if err == nil {
-					// Next served from memory: the crash happens before the caller sees the number
-					o.out = "ONone"
-				}
 				seq = nil
+				en.crash()
 			}
 		case "release":
 			if seq != nil {
 				if e.F == "fails" {
-					fs.failSet = true
+					if viaFlush {
+						en.armFlush()
+					} else {
+						fs.failSet = true
+					}
 				}
 				if err := seq.Release(); err != nil {
 					o.out = "OErr"
 				}
 			}
 		}
-		o.disk = readMark(inner)
+		o.disk = markTerm(en)
 		res = append(res, o)
 	}
-	return res
+	return res, en
 }
 
 var intervals = []uint64{1, 1, 2, 3, 10, 1 << 62, 1 << 63, ^uint64(0)}
 
-func genHistory(r *vx.Rng, n int) []ev {
+var siblingNames = []string{"log/", "idx/", "seq/", "sq/", "journal/"}
+var viewKeys = []string{"sq1", "sq2", "s", "seqq"}
+var sibKeys = []string{"seq", "sq1"}
+
+// genCfg picks a store configuration. Realm chains end in "seq/"; each level is opened either by
+// parent.WithExtendedRealm(name) or by top.WithRealm(whole prefix), always from a slice with spare capacity.
+func genCfg(r *vx.Rng, store string) cfg {
+	c := cfg{Store: store}
+	if c.flush() {
+		c.Drop = r.Bool()
+	}
+	if store == "realm" || store == "flushrealm" {
+		names := vx.Pick(r, [][]string{{"seq/"}, {"a/", "seq/"}, {"db/", "seq/"}, {"a/", "db/", "seq/"}})
+		for _, n := range names {
+			c.Chain = append(c.Chain, level{Name: n, Abs: r.Chance(1, 3)})
+		}
+	}
+	return c
+}
+
+func genEnvEvent(r *vx.Rng, c cfg) ev {
+	switch k := r.Intn(10); {
+	case k < 3:
+		return ev{Kind: "sib", F: vx.Pick(r, siblingNames), Key: vx.Pick(r, sibKeys), I: uint64(r.Intn(3)), Abs: r.Chance(1, 4)}
+	case k < 5:
+		return ev{Kind: "dnew", Key: vx.Pick(r, viewKeys), I: uint64(r.Intn(3))}
+	default:
+		return ev{Kind: "dop", I: uint64(r.Intn(8)), F: vx.Pick(r, []string{"next", "next", "next", "release", "restart"})}
+	}
+}
+
+// genHistory: n model events; on every configuration but the bare root, environment events (sibling views opened,
+// other sequences created / used / restarted) are interleaved.
+func genHistory(r *vx.Rng, n int, c cfg) []ev {
 	h := []ev{}
-	for len(h) < n {
+	nm := 0
+	via := func() string {
+		if c.flush() && r.Chance(2, 3) {
+			return "flush"
+		}
+		return ""
+	}
+	faultDen := 8
+	if c.flush() {
+		faultDen = 5
+	}
+	for nm < n {
+		if c.Store != "root" && r.Chance(2, 5) {
+			h = append(h, genEnvEvent(r, c))
+			continue
+		}
+		nm++
 		k := r.Intn(100)
+		forced := false
 		switch {
 		case k < 14:
 			iv := vx.Pick(r, intervals[:5])
@@ -202,22 +293,42 @@ func genHistory(r *vx.Rng, n int) []ev {
 			}
 			h = append(h, ev{Kind: "new", I: iv})
 		case k < 64:
-			f := "NoFault"
-			if r.Chance(1, 8) {
-				f = vx.Pick(r, []string{"FailGet", "FailSet"})
+			e := ev{Kind: "next", F: "NoFault"}
+			if r.Chance(1, faultDen) {
+				e.F = vx.Pick(r, []string{"FailGet", "FailSet"})
+				if e.F == "FailSet" {
+					e.Via = via()
+				}
 			}
-			h = append(h, ev{Kind: "next", F: f})
+			h = append(h, e)
+			forced = e.Via == "flush"
 		case k < 74:
-			h = append(h, ev{Kind: "nextcrash", F: vx.Pick(r, []string{"AfterRead", "AfterWrite"})})
-		case k < 90:
-			f := "ok"
-			if r.Chance(1, 6) {
-				f = "fails"
+			e := ev{Kind: "nextcrash", F: vx.Pick(r, []string{"AfterRead", "AfterWrite"})}
+			if e.F == "AfterRead" {
+				e.Via = via()
 			}
-			h = append(h, ev{Kind: "release", F: f})
+			h = append(h, e)
+		case k < 90:
+			e := ev{Kind: "release", F: "ok"}
+			if r.Chance(1, 6) {
+				e.F = "fails"
+				e.Via = via()
+			}
+			h = append(h, e)
+			forced = e.Via == "flush"
 		default:
 			h = append(h, ev{Kind: "abandon"})
 		}
+		// a failed Flush that KEEPS the write buffer leaves reads (buffer) and durable contents apart; the model has one
+		// mark, so on that backend the process is stopped (power loss) right after the failed call
+		if forced && !c.Drop {
+			h = append(h, ev{Kind: "abandon"})
+			nm++
+		}
+	}
+	// epilogue: power loss, restart, one number (turns every reservation that is not durable into an observed reuse)
+	if r.Chance(3, 4) {
+		h = append(h, ev{Kind: "abandon"}, ev{Kind: "new", I: vx.Pick(r, intervals[:5])}, ev{Kind: "next", F: "NoFault"})
 	}
 	return h
 }
@@ -242,21 +353,46 @@ func judge(h []ev, o []obs) (bool, string) {
 	return true, ""
 }
 
-func directed() [][]ev {
-	return [][]ev{
-		// D07 (repaired): Release on a fresh object
-		{{Kind: "new", I: 10}, {Kind: "next", F: "NoFault"}, {Kind: "abandon"}, {Kind: "new", I: 10}, {Kind: "release", F: "ok"}, {Kind: "abandon"}, {Kind: "new", I: 10}, {Kind: "next", F: "NoFault"}},
-		// Release on an exhausted object, then restart
-		{{Kind: "new", I: 1}, {Kind: "next", F: "NoFault"}, {Kind: "release", F: "ok"}, {Kind: "abandon"}, {Kind: "new", I: 2}, {Kind: "next", F: "NoFault"}},
-		// crash at both points
-		{{Kind: "new", I: 3}, {Kind: "next", F: "NoFault"}, {Kind: "nextcrash", F: "AfterRead"}, {Kind: "new", I: 3}, {Kind: "next", F: "NoFault"}, {Kind: "next", F: "NoFault"}, {Kind: "next", F: "NoFault"}, {Kind: "nextcrash", F: "AfterWrite"}, {Kind: "new", I: 1}, {Kind: "next", F: "NoFault"}},
-		// the suite's own maximal interval
-		{{Kind: "new", I: ^uint64(0)}, {Kind: "next", F: "NoFault"}, {Kind: "next", F: "NoFault"}, {Kind: "release", F: "ok"}, {Kind: "abandon"}, {Kind: "new", I: 5}, {Kind: "next", F: "NoFault"}},
-	}
+type dcase struct {
+	c cfg
+	h []ev
 }
 
-func emit(cf *vx.CasesFile, st *vx.Stats, h []ev, tag string) {
-	o := runHistory(h)
+func directed() []dcase {
+	root := cfg{Store: "root"}
+	n := ev{Kind: "next", F: "NoFault"}
+	d := []dcase{
+		// D07 (repaired): Release on a fresh object
+		{root, []ev{{Kind: "new", I: 10}, n, {Kind: "abandon"}, {Kind: "new", I: 10}, {Kind: "release", F: "ok"}, {Kind: "abandon"}, {Kind: "new", I: 10}, n}},
+		// Release on an exhausted object, then restart
+		{root, []ev{{Kind: "new", I: 1}, n, {Kind: "release", F: "ok"}, {Kind: "abandon"}, {Kind: "new", I: 2}, n}},
+		// crash at both points
+		{root, []ev{{Kind: "new", I: 3}, n, {Kind: "nextcrash", F: "AfterRead"}, {Kind: "new", I: 3}, n, n, n, {Kind: "nextcrash", F: "AfterWrite"}, {Kind: "new", I: 1}, n}},
+		// the suite's own maximal interval
+		{root, []ev{{Kind: "new", I: ^uint64(0)}, n, n, {Kind: "release", F: "ok"}, {Kind: "abandon"}, {Kind: "new", I: 5}, n}},
+	}
+	// the same lifecycle on every other configuration shape: lease, sibling views and other sequences in between,
+	// lease renewal, every crash point / flush fault, restart
+	envd := []ev{{Kind: "new", I: 2}, n, {Kind: "dnew", Key: "sq1"}, {Kind: "sib", F: "log/", Key: "seq"}, {Kind: "sib", F: "seq/", Key: "sq2", Abs: true}, n, n,
+		{Kind: "dop", I: 0, F: "next"}, {Kind: "dop", I: 1, F: "next"}, n, {Kind: "release", F: "ok"}, {Kind: "dop", I: 1, F: "restart"}, {Kind: "dop", I: 1, F: "next"}, n,
+		{Kind: "abandon"}, {Kind: "new", I: 3}, n, n, n, {Kind: "next", F: "FailSet", Via: "flush"}, {Kind: "abandon"}, {Kind: "new", I: 3}, n,
+		{Kind: "nextcrash", F: "AfterWrite"}, {Kind: "new", I: 1}, n, {Kind: "nextcrash", F: "AfterRead", Via: "flush"}, {Kind: "new", I: 2}, n, {Kind: "dop", I: 0, F: "next"}, {Kind: "dop", I: 2, F: "next"}}
+	for _, c := range []cfg{
+		{Store: "realm", Chain: []level{{Name: "seq/", Abs: true}}},
+		{Store: "realm", Chain: []level{{Name: "db/", Abs: true}, {Name: "seq/"}}},
+		{Store: "realm", Chain: []level{{Name: "a/"}, {Name: "db/"}, {Name: "seq/"}}},
+		{Store: "flush"}, {Store: "flush", Drop: true},
+		{Store: "flushrealm", Chain: []level{{Name: "db/", Abs: true}, {Name: "seq/"}}},
+		{Store: "flushrealm", Drop: true, Chain: []level{{Name: "a/"}, {Name: "seq/", Abs: true}}},
+	} {
+		d = append(d, dcase{c, envd})
+	}
+	return d
+}
+
+func emit(cf *vx.CasesFile, st *vx.Stats, c cfg, h []ev, tag string) {
+	o, en := runHistory(c, h)
+	mh := modelEvents(h)
 	obsTerms := make([]string, len(o))
 	nums := 0
 	for i, x := range o {
@@ -265,173 +401,34 @@ func emit(cf *vx.CasesFile, st *vx.Stats, h []ev, tag string) {
 			nums++
 		}
 	}
-	cf.Add(fmt.Sprintf("mk %s %s", vx.ListOf(h, ev.coq), vx.List(obsTerms)))
-	keyParts := make([]string, len(h))
-	for i, e := range h {
-		keyParts[i] = e.coq()
-		st.Count("ev:" + e.Kind)
-	}
-	st.Case(strings.Join(keyParts, ";"), nums >= 2)
-	st.CaseIndex = append(st.CaseIndex, map[string]any{"tag": tag, "history": h})
-	st.Sample(map[string]any{"history": keyParts, "observed": obsTerms}, 3)
-	if ok, why := judge(h, o); !ok {
-		st.Fail(map[string]any{"sig": "", "history": h, "why": why})
-	}
-}
-
-// conc: k goroutines call Next on one Sequence; all numbers distinct, per-caller increasing.
-func conc(r *vx.Rng, st *vx.Stats, runs int) {
-	for i := 0; i < runs; i++ {
-		inner := mapdb.NewMapDB()
-		seq, _ := kvstore.NewSequence(inner, key, vx.Pick(r, []uint64{1, 2, 3, 10}))
-		g := 2 + r.Intn(7)
-		per := 50
-		outs := make([][]uint64, g)
-		var wg sync.WaitGroup
-		for j := 0; j < g; j++ {
-			wg.Add(1)
-			go func(j int) {
-				defer wg.Done()
-				for k := 0; k < per; k++ {
-					v, err := seq.Next()
-					if err == nil {
-						outs[j] = append(outs[j], v)
-					}
-				}
-			}(j)
-		}
-		wg.Wait()
-		seen := map[uint64]bool{}
-		ok := true
-		for _, l := range outs {
-			for k, v := range l {
-				if seen[v] || (k > 0 && l[k-1] >= v) {
-					ok = false
-				}
-				seen[v] = true
-			}
-		}
-		st.Count("conc:runs")
-		if !ok || len(seen) != g*per {
-			st.Fail(map[string]any{"sig": "", "kind": "concurrent Next callers", "goroutines": g, "distinct": len(seen), "expected": g * per})
-		}
-	}
-}
-
-// hookStore calls on() before and after every Get/Set of the wrapped store (the store-operation boundaries).
-type hookStore struct {
-	kvstore.KVStore
-	on func()
-}
-
-func (h *hookStore) Get(k kvstore.Key) (kvstore.Value, error) {
-	h.on()
-	v, err := h.KVStore.Get(k)
-	h.on()
-	return v, err
-}
-
-func (h *hookStore) Set(k kvstore.Key, v kvstore.Value) error {
-	h.on()
-	err := h.KVStore.Set(k, v)
-	h.on()
-	return err
-}
-
-// windows: a second caller (Next or Release on the same object) is started exactly at a store-operation boundary of the
-// first caller's Next/Release and given 25 ms to run. With the object's mutex held across the store access (as the model
-// assumes: operations on one object are serial) the intruder just blocks until the first caller is done; if some store
-// access happens outside the critical section the intruder runs inside the window. Afterwards the object is abandoned
-// (crash), a new one is created and enough numbers are drawn to cross one interval: no number may ever repeat.
-func windows(r *vx.Rng, st *vx.Stats, lists int) {
-	for i := 0; i < lists; i++ {
-		interval := vx.Pick(r, []uint64{2, 3, 10})
-		nops := 2 + r.Intn(4)
-		ops := make([]string, nops)
-		for j := range ops {
-			ops[j] = vx.Pick(r, []string{"next", "next", "release"})
-		}
-		// dry run counts the store-operation boundaries of this op list; then every boundary x {next, release} is tried
-		n := windowRun(st, interval, ops, -1, "")
-		for at := int64(0); at < n; at++ {
-			for _, op := range []string{"next", "release"} {
-				windowRun(st, interval, ops, at, op)
-			}
-		}
-	}
-}
-
-func windowRun(st *vx.Stats, interval uint64, ops []string, at int64, intruder string) int64 {
-	inner := mapdb.NewMapDB()
-	hs := &hookStore{KVStore: inner, on: func() {}}
-	seq, _ := kvstore.NewSequence(hs, key, interval)
-	var mu sync.Mutex
-	var all []uint64
-	record := func(v uint64) { mu.Lock(); all = append(all, v); mu.Unlock() }
-	var calls atomic.Int64
-	var intruding atomic.Bool
-	var wg sync.WaitGroup
-	hs.on = func() {
-		if intruding.Load() {
-			return
-		}
-		if calls.Add(1)-1 != at {
-			return
-		}
-		done := make(chan struct{})
-		wg.Add(1)
-		intruding.Store(true)
-		go func() {
-			defer wg.Done()
-			if intruder == "next" {
-				if v, err := seq.Next(); err == nil {
-					record(v)
-				}
-			} else {
-				_ = seq.Release()
-			}
-			intruding.Store(false)
-			close(done)
-		}()
-		select {
-		case <-done:
-		case <-time.After(20 * time.Millisecond):
-		}
-	}
-	for _, op := range ops {
-		if op == "next" {
-			if v, err := seq.Next(); err == nil {
-				record(v)
-			}
+	cf.Add(fmt.Sprintf("mk %s %s", vx.ListOf(mh, ev.coq), vx.List(obsTerms)))
+	keyParts := make([]string, 0, len(h)+1)
+	keyParts = append(keyParts, c.String())
+	for _, e := range h {
+		if e.envEvent() {
+			keyParts = append(keyParts, e.Kind+":"+e.F+":"+e.Key+fmt.Sprint(e.I, e.Abs))
 		} else {
-			_ = seq.Release()
+			keyParts = append(keyParts, e.coq()+e.Via)
 		}
-		wg.Wait()
-	}
-	hs.on = func() {}
-	seq2, _ := kvstore.NewSequence(hs, key, interval)
-	for k := uint64(0); k < 2*interval+2; k++ {
-		if v, err := seq2.Next(); err == nil {
-			record(v)
+		st.Count("ev:" + e.Kind)
+		if e.Via != "" {
+			st.Count("ev:" + e.Kind + ":via-" + e.Via)
 		}
 	}
-	if at < 0 {
-		return calls.Load()
+	st.Count("store:" + c.Store)
+	st.Case(strings.Join(keyParts, ";"), nums >= 2)
+	st.CaseIndex = append(st.CaseIndex, map[string]any{"tag": tag, "store": c, "history": h})
+	st.Sample(map[string]any{"store": c.String(), "history": keyParts, "observed": obsTerms}, 3)
+	fail := func(why string) {
+		st.Fail(map[string]any{"sig": "", "store": c, "history": h, "why": why, "other_sequences": en.decoyReport()})
 	}
-	seen := map[uint64]bool{}
-	dup := false
-	for _, v := range all {
-		if seen[v] {
-			dup = true
-		}
-		seen[v] = true
+	if ok, why := judge(mh, o); !ok {
+		fail(why)
+	} else if ok, why := en.judgeDecoys(); !ok {
+		fail(why)
+	} else if stray := en.strayKeys(); len(stray) > 0 {
+		fail(fmt.Sprintf("the store holds keys %q that belong to no sequence of this run (a mark was written under a foreign realm)", stray))
 	}
-	st.Count("windows:runs")
-	if dup {
-		st.Fail(map[string]any{"sig": "", "kind": "second caller started at a store-operation boundary of the first", "interval": interval,
-			"ops": ops, "intruder": intruder, "at_store_boundary": at, "returned": all, "why": "a number was handed out twice"})
-	}
-	return calls.Load()
 }
 
 func main() {
@@ -445,23 +442,33 @@ func main() {
 	out := fs.String("out", "cases.v", "")
 	stats := fs.String("stats", "stats.json", "")
 	replay := fs.String("replay", "", "JSON history to replay")
+	concRuns := fs.Int("conc", 32, "free-running runs with several callers on one sequence")
+	multiOps := fs.Int("multi-ops", 100000, "operations per sequence in the many-sequences-on-one-store runs")
+	winLists := fs.Int("windows", 10, "op lists of the store-boundary family on the root store (a third of it on each other configuration)")
 	_ = fs.Parse(os.Args[2:])
 	r := vx.NewRng(*seed)
-	st := vx.NewStats("random event histories (New with intervals {1,2,3,10,2^62,2^63,2^64-1,0}, Next with Get/Set faults, crash inside Next after the read / after the write, Release ok/failing, Abandon) on a fresh mapdb; distinct = distinct histories; non-trivial = at least two numbers handed out")
+	st := vx.NewStats("random event histories (New with intervals {1,2,3,10,2^62,2^63,2^64-1,0}, Next with Get/Set faults, crash inside Next after the read / after the write, Release ok/failing, Abandon) over 4 store configurations: bare root mapdb; nested mapdb realm views (realm slices with spare capacity, sibling views opened and other sequences with other keys used between the events); flushkv over a write-buffering backend that loses unflushed writes at every abandon/crash and whose Flush can fail after the Set (failed flush keeps or drops the buffer); realm views of that flushkv store. distinct = distinct (configuration, history); non-trivial = at least two numbers handed out")
 	cf := &vx.CasesFile{
 		Header: "From Coq Require Import NArith List.\nFrom Verif.C07_Seq Require Import Model Corr.\nImport ListNotations.\nOpen Scope N_scope.\n",
 		Type:   "case",
 		Footer: "Definition M := Eval vm_compute in mismatches cases.\nPrint M.\n",
 	}
 	_ = replay
-	for _, h := range directed() {
-		emit(cf, st, h, "directed")
+	for _, d := range directed() {
+		emit(cf, st, d.c, d.h, "directed")
 	}
-	for cf.Len() < *n {
-		emit(cf, st, genHistory(r.Fork(), 3+r.Intn(*maxLen)), "random")
+	stores := []string{"root", "root", "realm", "flush", "flushrealm"}
+	for i := 0; cf.Len() < *n; i++ {
+		hr := r.Fork()
+		c := genCfg(hr, stores[i%len(stores)])
+		emit(cf, st, c, genHistory(hr, 3+r.Intn(*maxLen), c), "random")
 	}
-	conc(r.Fork(), st, 20)
-	windows(r.Fork(), st, 10)
+	conc(r.Fork(), st, *concRuns, *multiOps)
+	wr := r.Fork()
+	windows(wr, st, *winLists, cfg{Store: "root"})
+	for _, s := range []string{"realm", "flush", "flushrealm"} {
+		windows(wr, st, (*winLists+2)/3, genCfg(wr, s))
+	}
 	if err := cf.Write(*out); err != nil {
 		vx.Die("%v", err)
 	}
